@@ -287,3 +287,29 @@ def value_leaves(e: ast.expr) -> List[ast.expr]:
     if isinstance(e, ast.IfExp):
         return value_leaves(e.body) + value_leaves(e.orelse)
     return [e]
+
+
+def preceding_def(fn_node: ast.AST, name: str, at: ast.AST) -> Optional[Tuple[ast.Assign, List[ast.stmt]]]:
+    """The assignment `name = ...` that most closely precedes the statement containing `at` in block order
+    (same block, else the enclosing blocks), with the statements executed in between (same nesting level
+    only).  Positions come from the tree, not from line numbers - inlined code keeps its original lines."""
+    from sa.flow import parent_map
+
+    parents = parent_map(fn_node)
+    cur: Optional[ast.AST] = at
+    between: List[ast.stmt] = []
+    while cur is not None:
+        par = parents.get(id(cur))
+        if par is None:
+            return None
+        for f in ("body", "orelse", "finalbody"):
+            blk = getattr(par, f, None)
+            if isinstance(blk, list) and any(x is cur for x in blk):
+                idx = next(i for i, x in enumerate(blk) if x is cur)
+                for j in range(idx - 1, -1, -1):
+                    s = blk[j]
+                    if isinstance(s, ast.Assign) and len(s.targets) == 1 and isinstance(s.targets[0], ast.Name) and s.targets[0].id == name:
+                        return s, list(reversed(between))
+                    between.append(s)
+        cur = par
+    return None
